@@ -295,33 +295,73 @@ _DIVUF = z3.Function("div!uf", z3.RealSort(), z3.RealSort(), z3.RealSort())
 
 
 def _div_info(t):
-    """(has non-constant division, tuple of division-free denominators) of a term; memoised by ast id"""
+    """(has non-constant division, tuple of division-free denominators) of a term; memoised by ast id;
+    iterative post-order (terms can be thousands of levels deep)"""
     key = t.get_id()
     hit = _DIV_MEMO.get(key)
     if hit is not None and hit[0].eq(t):
         return hit[1], hit[2]
-    has, dens = False, []
-    if z3.is_app(t) and t.num_args():
-        for c in t.children():
-            h, ds = _div_info(c)
-            has = has or h
-            dens.extend(ds)
-        if t.decl().kind() == z3.Z3_OP_DIV and not z3.is_rational_value(t.arg(1)):
-            has = True
-            if not _div_info(t.arg(1))[0]:
-                dens.append(t.arg(1))
     if len(_DIV_MEMO) > 400000:
         _DIV_MEMO.clear()
-    seen, uniq = set(), []
-    for d in dens:
-        if d.get_id() not in seen:
-            seen.add(d.get_id())
-            uniq.append(d)
-    _DIV_MEMO[key] = (t, has, tuple(uniq))
-    return has, tuple(uniq)
+    stack = [(t, False)]
+    while stack:
+        x, done = stack.pop()
+        k = x.get_id()
+        h0 = _DIV_MEMO.get(k)
+        if h0 is not None and h0[0].eq(x):
+            continue
+        ch = x.children() if z3.is_app(x) else []
+        if not done and ch:
+            stack.append((x, True))
+            for c in ch:
+                hc = _DIV_MEMO.get(c.get_id())
+                if hc is None or not hc[0].eq(c):
+                    stack.append((c, False))
+            continue
+        has, dens = False, []
+        for c in ch:
+            _, hc, dc = _DIV_MEMO[c.get_id()]
+            has = has or hc
+            dens.extend(dc)
+        if ch and x.decl().kind() == z3.Z3_OP_DIV and not z3.is_rational_value(ch[1]):
+            has = True
+            if not _DIV_MEMO[ch[1].get_id()][1]:
+                dens.append(ch[1])
+        seen, uniq = set(), []
+        for d in dens:
+            if d.get_id() not in seen:
+                seen.add(d.get_id())
+                uniq.append(d)
+        _DIV_MEMO[k] = (x, has, tuple(uniq))
+    _, has, dens = _DIV_MEMO[key]
+    return has, dens
+
+
+_NONCONST_DIV = [0]      # number of divisions by a non-numeral created through the z3 python API in this process
+
+
+def _hook_division():
+    def wrap(name, den_is_self):
+        orig = getattr(z3.ArithRef, name, None)
+        if orig is None:
+            return
+
+        def f(self, other):
+            d = self if den_is_self else other
+            if not isinstance(d, (int, float, Fraction)) and not (z3.is_expr(d) and (z3.is_rational_value(d) or z3.is_int_value(d))):
+                _NONCONST_DIV[0] += 1
+            return orig(self, other)
+        setattr(z3.ArithRef, name, f)
+    for n, s_ in (("__truediv__", False), ("__div__", False), ("__rtruediv__", True), ("__rdiv__", True)):
+        wrap(n, s_)
+
+
+_hook_division()
 
 
 def _has_div(t):
+    if not _NONCONST_DIV[0]:
+        return False          # no such division has been built at all (the usual case): no traversal
     return _div_info(t)[0]
 
 
